@@ -41,7 +41,9 @@ class RuntimeAnalysis(ForwardExtra[RuntimeFrame, EmptyLattice]):
 
     def has_quantum_runtime(self, method: ir.Method) -> bool:
         """Return True if the method has quantum runtime operations, False otherwise."""
-        frame, _ = self.run_analysis(method)
+        # an analysis error (e.g. a call that cannot be resolved statically) must not
+        # be mistaken for "no quantum runtime": let it propagate to the caller.
+        frame, _ = self.run_analysis(method, no_raise=False)
         return frame.is_quantum
 
 
@@ -82,9 +84,8 @@ class Scf(interp.MethodTable):
     def for_loop(self, _interp: RuntimeAnalysis, frame: RuntimeFrame, stmt: scf.For):
         args = (_interp.lattice.top(),) * (len(stmt.initializers) + 1)
         with _interp.new_frame(stmt, has_parent_access=True) as body_frame:
-            result = _interp.run_ssacfg_region(
-                body_frame, stmt.body, (_interp.lattice.bottom(),)
-            )
+            # the loop body takes the induction variable and the loop-carried values
+            result = _interp.run_ssacfg_region(body_frame, stmt.body, args)
 
         frame.is_quantum = frame.is_quantum or body_frame.is_quantum
         frame.quantum_stmts.update(body_frame.quantum_stmts)
